@@ -12,7 +12,8 @@
 (*                (extend_context_with_wild_cards)                         *)
 (*   cache      : the keys that currently hold a value                     *)
 (*   stack      : the evaluations of marked sub-formulae in progress that  *)
-(*                WILL store their result (the save rule said yes)         *)
+(*                WILL store their result (the save rule said yes), each   *)
+(*                with the number of scopes that were open when it began   *)
 (*                                                                         *)
 (* eval_node on a node with key k:                                         *)
 (*   k marked and cached     -> Hit(k): fetch, one fetch less; at zero the *)
@@ -24,24 +25,52 @@
 (*                              through a shortcut that does not store:    *)
 (*                              Shortcut(k)                                *)
 (*   k not marked            -> nothing (not an action of this module)     *)
-(* `save` is decided by the scope rule (no enclosing restricted quantifier *)
-(* whose variable is not free in the sub-formula); here it is an input.    *)
+(* `save` is decided by the SCOPE RULE: no enclosing quantifier with a      *)
+(* restricted domain whose variable is not free in the sub-formula (a      *)
+(* value computed on the restricted graph of such a quantifier is valid    *)
+(* only there).  The open quantifier scopes are part of the state:         *)
+(*   scopes : stack of [var, dom] (dom = "" for an unrestricted one),      *)
+(*            pushed by Open when eval_node enters a quantifier and popped *)
+(*            by Close when it leaves (EvalContext.free_var_domains)       *)
+(* Marked keys have at most one variable; KeyDom(k) says what the key      *)
+(* contains about it: "closed" (no free variable), "" (a free variable     *)
+(* with an unrestricted domain) or the label of its domain.  The rule is   *)
+(* then computable: see SaveRule.                                          *)
 (***************************************************************************)
 EXTENDS Naturals, Integers, Sequences, FiniteSets
 
 CONSTANTS Keys,      \* all keys that may be visited
-          Wild       \* the keys of wild-card propositions (subset of Keys)
+          Wild,      \* the keys of wild-card propositions (subset of Keys)
+          KeyDom(_)  \* "closed" / "" / domain label of the key's free variable
 
-VARIABLES duplicates, cache, stack,
-          hits, saved        \* history: fetches per key, keys ever stored by Save
-cvars == <<duplicates, cache, stack, hits, saved>>
+VARIABLES duplicates, cache, stack, scopes,
+          hits, saved,       \* history: fetches per key, keys ever stored by Save
+          savedUnder         \* history: the restricted scopes that were open when a key was stored
+cvars == <<duplicates, cache, stack, scopes, hits, saved, savedUnder>>
 
 Marked == DOMAIN duplicates
 
 (* the state the marking pass and the wild-card pre-loading leave: d0 = counters, c0 = pre-loaded keys *)
 CacheInit(d0, c0) ==
-  /\ duplicates = d0 /\ cache = c0 /\ stack = <<>>
-  /\ hits = [k \in Keys |-> 0] /\ saved = {}
+  /\ duplicates = d0 /\ cache = c0 /\ stack = <<>> /\ scopes = <<>>
+  /\ hits = [k \in Keys |-> 0] /\ saved = {} /\ savedUnder = [k \in {} |-> {}]
+
+(* the labels of the restricted quantifier scopes that are open *)
+Restricted == {scopes[j].dom : j \in {i \in 1..Len(scopes) : scopes[i].dom # ""}}
+NRestricted == Cardinality({i \in 1..Len(scopes) : scopes[i].dom # ""})
+(* eval_node: free_var_domains.iter().all(|(v, d)| d.is_none() || renaming.contains_key(v))  --  with at most  *)
+(* one variable in a marked key: no restricted scope is open, or exactly one and it is the key's own variable *)
+SaveRule(k) == NRestricted = 0 \/ (NRestricted = 1 /\ KeyDom(k) \in Restricted)
+
+Open(v, d) ==
+  /\ \A j \in 1..Len(scopes) : scopes[j].var # v      \* variables are named by nesting depth: no re-binding
+  /\ scopes' = Append(scopes, [var |-> v, dom |-> d])
+  /\ UNCHANGED <<duplicates, cache, stack, hits, saved, savedUnder>>
+Close(v) ==
+  /\ scopes # <<>> /\ scopes[Len(scopes)].var = v
+  /\ \A j \in 1..Len(stack) : stack[j].depth < Len(scopes)   \* evaluations begun inside the scope have ended
+  /\ scopes' = SubSeq(scopes, 1, Len(scopes) - 1)
+  /\ UNCHANGED <<duplicates, cache, stack, hits, saved, savedUnder>>
 
 Drop(f, k) == [x \in (DOMAIN f) \ {k} |-> f[x]]
 
@@ -52,28 +81,31 @@ Hit(k) ==
        THEN duplicates' = Drop(duplicates, k) /\ cache' = cache \ {k}
        ELSE duplicates' = [duplicates EXCEPT ![k] = left] /\ cache' = cache
   /\ hits' = [hits EXCEPT ![k] = @ + 1]
-  /\ UNCHANGED <<stack, saved>>
+  /\ UNCHANGED <<stack, scopes, saved, savedUnder>>
 
 Miss(k, save) ==
   /\ k \in Marked /\ k \notin cache
-  /\ \A j \in 1..Len(stack) : stack[j] # k            \* a sub-formula does not contain itself
-  /\ stack' = IF save THEN Append(stack, k) ELSE stack
-  /\ UNCHANGED <<duplicates, cache, hits, saved>>
+  /\ \A j \in 1..Len(stack) : stack[j].key # k        \* a sub-formula does not contain itself
+  /\ save = SaveRule(k)
+  /\ stack' = IF save THEN Append(stack, [key |-> k, depth |-> Len(scopes)]) ELSE stack
+  /\ UNCHANGED <<duplicates, cache, scopes, hits, saved, savedUnder>>
 
 Save(k) ==
-  /\ stack # <<>> /\ stack[Len(stack)] = k
+  /\ stack # <<>> /\ stack[Len(stack)].key = k
+  /\ stack[Len(stack)].depth = Len(scopes)            \* every scope entered during the evaluation has been left
   /\ cache' = cache \cup {k} /\ saved' = saved \cup {k}
+  /\ savedUnder' = [x \in (DOMAIN savedUnder) \cup {k} |-> IF x = k THEN Restricted ELSE savedUnder[x]]
   /\ stack' = SubSeq(stack, 1, Len(stack) - 1)
-  /\ UNCHANGED <<duplicates, hits>>
+  /\ UNCHANGED <<duplicates, scopes, hits>>
 
 (* Two shortcuts of eval_node return at once WITHOUT storing, even if the node is marked and the save rule   *)
 (* said yes: the steady-state pattern `!{x}: AX {x}` (its value is the pre-computed steady-state set) and    *)
 (* a quantifier whose restricted domain is empty.  (The attractor pattern does store.)  Found by            *)
 (* Trace_Cache: the first version of this module had no such action and rejected those traces.              *)
 Shortcut(k) ==
-  /\ stack # <<>> /\ stack[Len(stack)] = k
+  /\ stack # <<>> /\ stack[Len(stack)].key = k
   /\ stack' = SubSeq(stack, 1, Len(stack) - 1)
-  /\ UNCHANGED <<duplicates, cache, hits, saved>>
+  /\ UNCHANGED <<duplicates, cache, scopes, hits, saved, savedUnder>>
 
 (* what was left after a fetch, and whether the entry went: the two fields the hook logs with a hit *)
 LeftOf(k)   == IF k \in Marked THEN duplicates[k] ELSE 0
@@ -89,5 +121,8 @@ FetchBound(d0) == \A k \in (DOMAIN d0) \ Wild : hits[k] <= d0[k]
 WildKept(c0) == \A k \in c0 \cap Wild : k \in cache
 (* whatever is cached was pre-loaded or stored by a Save that the save rule allowed *)
 CachedWasSaved(c0) == cache \subseteq (c0 \cup saved)
-StackDistinct == \A a, b \in 1..Len(stack) : a # b => stack[a] # stack[b]
+StackDistinct == \A a, b \in 1..Len(stack) : a # b => stack[a].key # stack[b].key
+(* THE point of the save rule: a stored value was computed under no restricted scope other than that of the     *)
+(* key's own variable - whose domain is part of the key - so it is valid wherever the key matches again         *)
+StoredValuesPortable == \A k \in DOMAIN savedUnder : savedUnder[k] \subseteq {KeyDom(k)}
 =============================================================================
